@@ -31,6 +31,9 @@ pub fn build_arg(a: &Value) -> Arg {
     for al in a["aliases"].as_array().unwrap() {
         x = if visible.contains(&al) { x.visible_alias(s_of(al)) } else { x.alias(s_of(al)) };
     }
+    if let Some(h) = a["heading"].as_str().filter(|h| !h.is_empty()) {
+        x = x.help_heading(h.to_string());
+    }
     for sa in a["saliases"].as_array().map(|v| v.to_vec()).unwrap_or_default() {
         if let Some(c) = ch(&sa) {
             x = x.short_alias(c);
